@@ -25,6 +25,28 @@ LEAN_MODULES = ["LenaModel.Props.C14"]
 LEAN_SOURCES = ["LenaModel/Model/C14.lean", "LenaModel/Lemmas/C14.lean", "LenaModel/Props/C14.lean"]
 DRIVER = "drivers/C14.lean"
 THEOREMS = [
+    "Lena.C14.compose_eq_sequence",
+    "Lena.C14.compose_eq_sequence_pinned_partial",
+    "Lena.C14.compose_ne_sequence_pinned",
+    "Lena.C14.UP_assoc",
+    "Lena.C14.updateVar_eq_UP",
+    "Lena.C14.chainWFb_sound",
+    "Lena.C14.seqCall_data",
+    "Lena.C14.compose_getter",
+    "Lena.C14.combine_tuple",
+    "Lena.C14.combine_context",
+    "Lena.C14.call_data",
+    "Lena.C14.call_frame",
+    "Lena.C14.seqCall_frame",
+    "Lena.C14.call_carries_attributes",
+    "Lena.C14.mkVariable_attributes",
+    "Lena.C14.seqCall_result",
+    "Lena.C14.types_persist",
+    "Lena.C14.compose_order",
+    "Lena.C14.earlier_types_persist",
+    "Lena.C14.mkVariable_rejects",
+    "Lena.C14.mkCompose_rejects",
+    "Lena.C14.mkCombine_rejects",
 ]
 TRUSTED = [
     "Lean 4.33.0 kernel; axioms limited to propext, Classical.choice, Quot.sound (audited by #print axioms on every run)",
@@ -38,10 +60,14 @@ ASSUMPTIONS = [
     "getters are total functions of the data (an exception of a user's getter is outside the statement)",
     "contexts hold ints, strings, lists, tuples and string-keyed dictionaries; a `type` is a string",
     "in-place mutation of the value's context is observed by the harness (before/after snapshots), not by the pure model",
-    "the model carries both versions of the condition in line 196 of variable.py (fx=false: `\"type\" in cvar`, fx=true: "
-    "`\"type\" in cvar or \"compose\" in cvar`, notes/C14_defect_1.patch); the harness determines on one fixed input which of "
-    "them the tree under test implements and asks the model for that one; compose_eq_sequence is proved for fx=true, "
-    "for fx=false only under the hypothesis that every non-last variable is typed (and a counterexample is proved)",
+    "the model carries both versions of the condition in line 196 of variable.py (fx=true: `\"type\" in cvar or \"compose\" in "
+    "cvar`, /repo since commit 0eafe05 = notes/C14_defect_1.patch; fx=false: `\"type\" in cvar`, the tree before it); the "
+    "harness determines on one fixed input which of them the tree under test implements and asks the model for that one; "
+    "compose_eq_sequence is proved for fx=true, for fx=false only under the hypothesis that every non-last variable is typed "
+    "(compose_eq_sequence_pinned_partial) together with a machine-checked counterexample (compose_ne_sequence_pinned)",
+    "theorem hypotheses (NamesOK, ChainWF: well-formed variable contexts, no attribute named like a type, no type called "
+    "'compose'; LeavesOK for the distinct-types theorems) are evaluated by the driver (chainWFb) on every generated case and "
+    "must hold for every case the harness classifies as well-formed (spec_wf)",
 ]
 RULE = ("exhaustive: chains of 1..3 leaf variables, each untyped / typed with a fresh type / typed with the shared type 'ta', "
         "with and without an attribute, x 7 input values (bare, context without variable, untyped variable, typed variable, "
@@ -328,6 +354,9 @@ def compare(case, res, replies):
             if m.get("e") != r.get("e") or m.get("phase") != r.get("phase"):
                 return f"{which}: construction: impl {r if 'e' in r else 'ok'} vs model {m if 'e' in m else 'ok'}"
             continue
+        if which == "S" and spec_wf(case) and not (m.get("namesok") and all(m.get("wf", [False]))):
+            return (f"the case is well-formed by the harness's rule (spec_wf) but outside the hypotheses of the Lean theorems: "
+                    f"NamesOK={m.get('namesok')} ChainWF per value={m.get('wf')}")
         mv = [from_model(x, names) for x in m["vcs"]]
         if mv != r["vcs"]:
             return f"{which}: var_context: impl {r['vcs']} vs model {mv}"
